@@ -196,7 +196,9 @@ type Model struct {
 	PropOrder  []string
 	Executed   map[string]int64 // tx bytes (hex of hash) -> height of success
 	Snaps      map[int64]*Snapshot
-	Contracts  []Addr // contract addresses in creation order (top-level and inner)
+	Contracts  []Addr // contract addresses in creation order (top-level deployments)
+	Deployed   map[Addr]bool // addresses created by successful deployment transactions
+	GenesisInFlight int      // genesis stakes that were unbonding at the start or the end of the current block
 	ChainID    string
 }
 
@@ -212,7 +214,7 @@ func NewModel(chainID string, gov GovP) *Model {
 		Delegs: map[Addr]*MDeleg{}, Claims: map[Addr]*big.Int{},
 		Props: map[string]*MProp{}, FrozenProps: map[string]*MProp{},
 		GenesisTotal: new(big.Int), Withdrawn: new(big.Int), SlashBurn: new(big.Int), EvmBurn: new(big.Int),
-		Refunded: map[int]bool{}, Executed: map[string]int64{}, Snaps: map[int64]*Snapshot{},
+		Refunded: map[int]bool{}, Executed: map[string]int64{}, Snaps: map[int64]*Snapshot{}, Deployed: map[Addr]bool{},
 	}
 }
 
